@@ -26,7 +26,12 @@ RULE = ('signed Data / Interest packets as in C01 with every shipped signer and 
         'given to the signer, the ranges parse_* reports and the signed portion computed by an independent strict reader '
         'are compared, the verifier must accept, and then 10 (quick) / 40 (thorough) tampered copies are parsed and '
         'verified: single-byte substitutions at sampled positions, truncations, and TLV-level edits (element dropped, '
-        'duplicated, swapped, unknown element inserted, length edited). A tampered copy whose signed portion or signature '
+        'duplicated, swapped, unknown element inserted, length edited), plus 6 (quick) / 21 (thorough) edits aimed at the '
+        'Name (component inserted - also right behind / before the digest component -, deleted, split, digest component '
+        'moved), SignatureInfo / KeyLocator (SignatureType changed to another real type, unknown element inserted, KeyLocator '
+        'name extended), and the signature elements (second SignatureInfo / SignatureValue, signature value truncated to a '
+        'prefix / emptied / extended, element appended after it). Acceptance is judged for verify_* and for the shipped '
+        'known-key checker classes (from_key). A tampered copy whose signed portion or signature '
         'value differs must be rejected; params_sha256_checker must agree with SHA-256 of ApplicationParameters..end. '
         'non-trivial = packet signed and at least one tampered copy still parses; distinct = distinct generator inputs')
 LEVEL_TEXT = ('Lean 4 theorems about the packet model: the bytes handed to the signer are exactly the specified signed portion of '
@@ -63,7 +68,121 @@ def cases(rng, tier):
                 c[key] = c[key] % 600
         c['tamper'] = [[rng.choice(['subst', 'subst', 'subst', 'trunc', 'dup', 'del', 'swap', 'ins', 'len', 'digestcut']),
                         rng.getrandbits(30), rng.getrandbits(8)] for _ in range(k)]
+        # TLV-level edits aimed at the Name, SignatureInfo / KeyLocator and the signature elements
+        c['tamper'] += [[rng.choice(TARGETED), rng.getrandbits(30), rng.getrandbits(8)] for _ in range(k // 2 + 1)]
         yield c
+
+
+TARGETED = ['comp_ins', 'comp_ins', 'digest_move', 'comp_split', 'comp_del', 'sigtype', 'sig2', 'si_ins', 'kl_comp', 'tail', 'sigval', 'sigval']
+
+
+def _kids(wire, vs, ve):
+    out, off = [], vs
+    while off < ve:
+        t, a, b = S.read_elem(wire, off, ve)
+        out.append((t, off, a, b))
+        off = b
+    return out
+
+
+def _descend(wire, types):
+    """the element reached from the packet's outer element through the first child of each given Type, or None"""
+    t, vs, ve = S.read_elem(wire, 0, len(wire))
+    node = (t, 0, vs, ve)
+    for want in types:
+        nxt = [k for k in _kids(wire, node[2], node[3]) if k[0] == want]
+        if not nxt:
+            return None
+        node = nxt[0]
+    return node
+
+
+def _targeted(wire, kind, r, b, is_data):
+    """returns (element to replace as (off, end), its new bytes) or None"""
+    si_t, sv_t = (0x16, 0x17) if is_data else (0x2c, 0x2e)
+    if kind in ('comp_ins', 'digest_move', 'comp_split', 'comp_del'):
+        nm = _descend(wire, [7])
+        if nm is None:
+            return None
+        comps = [bytes(wire[k[1]:k[3]]) for k in _kids(wire, nm[2], nm[3])]
+        dpos = [i for i, c in enumerate(comps) if c[:1] == b'\x02']
+        if kind == 'comp_ins':
+            new = T.tl(8) + T.tl(1 + b % 2) + bytes([0x61 + b % 26] * (1 + b % 2))
+            i = dpos[-1] + 1 if (dpos and r % 3 == 0) else dpos[0] if (dpos and r % 3 == 1) else r % (len(comps) + 1)
+            comps = comps[:i] + [new] + comps[i:]
+        elif kind == 'digest_move':
+            if not dpos or len(comps) < 2:
+                return None
+            d = comps.pop(dpos[0])
+            i = r % (len(comps) + 1)
+            if i == dpos[0]:
+                i = (i + 1) % (len(comps) + 1)
+            comps.insert(i, d)
+        elif kind == 'comp_del':
+            cand = [i for i in range(len(comps)) if i not in dpos]
+            if not cand:
+                return None
+            comps.pop(cand[r % len(cand)])
+        else:
+            cand = []
+            for i, c in enumerate(comps):
+                ct, cvs, cve = S.read_elem(c, 0, len(c))
+                if cve - cvs >= 2 and i not in dpos:
+                    cand.append((i, ct, c[cvs:cve]))
+            if not cand:
+                return None
+            i, ct, v = cand[r % len(cand)]
+            k = 1 + b % (len(v) - 1)
+            comps[i:i + 1] = [T.tl(ct) + T.tl(k) + v[:k], T.tl(ct) + T.tl(len(v) - k) + v[k:]]
+        body = b''.join(comps)
+        return (nm[1], nm[3]), T.tl(7) + T.tl(len(body)) + body
+    if kind == 'sigtype':
+        st = _descend(wire, [si_t, 0x1b])
+        if st is None or st[3] - st[2] != 1:
+            return None
+        others = [x for x in (0, 1, 3, 4, 5, 200) if x != wire[st[2]]]
+        return (st[1], st[3]), bytes(wire[st[1]:st[2]]) + bytes([others[r % len(others)]])
+    if kind == 'sig2':
+        n = _descend(wire, [sv_t if r % 2 == 0 else si_t])
+        if n is None:
+            return None
+        el = bytes(wire[n[1]:n[3]])
+        if r % 4 == 0 and n[3] - n[2] > 0:
+            # the second signature element differs from the first one
+            el2 = el[:-1] + bytes([el[-1] ^ 0x01])
+            return (n[1], n[3]), (el + el2 if b % 2 else el2 + el)
+        return (n[1], n[3]), el + el
+    if kind == 'sigval':
+        n = _descend(wire, [sv_t])
+        if n is None:
+            return None
+        v = bytes(wire[n[2]:n[3]])
+        v2 = [v[:-1], v[:len(v) // 2], v[:1], b'', v + b'\x00', v[1:] + v[:1], bytes(len(v)), v[:-1]][r % 8]
+        if v2 == v:
+            return None
+        return (n[1], n[3]), T.tl(sv_t) + T.tl(len(v2)) + v2
+    if kind in ('si_ins', 'kl_comp'):
+        path = [si_t] if (kind == 'si_ins' and r % 2 == 0) else [si_t, 0x1c] if kind == 'si_ins' else [si_t, 0x1c, 7]
+        n = _descend(wire, path)
+        if n is None:
+            return None
+        kids = _kids(wire, n[2], n[3])
+        if kind == 'kl_comp':
+            extra = T.tl(8) + T.tl(1) + bytes([0x41 + b % 26])
+        else:
+            pl = bytes([b] * (r % 3))
+            extra = T.tl([0xf0, 0xfe, 0x300][b % 3]) + T.tl(len(pl)) + pl
+        i = (r // 7) % (len(kids) + 1)
+        cut = kids[i][1] if i < len(kids) else n[3]
+        body = bytes(wire[n[2]:cut]) + extra + bytes(wire[cut:n[3]])
+        return (n[1], n[3]), bytes(wire[n[1]:n[2]])[:len(T.tl(n[0]))] + T.tl(len(body)) + body
+    if kind == 'tail':
+        n = _descend(wire, [sv_t])
+        if n is None:
+            return None
+        pl = bytes([b] * (r % 4))
+        return (n[1], n[3]), bytes(wire[n[1]:n[3]]) + T.tl([0xf0, 0xfc, 0x320][b % 3]) + T.tl(len(pl)) + pl
+    return None
 
 
 def shrink(case):
@@ -90,6 +209,14 @@ def _apply_tamper(wire, t):
         return wire[:i] + bytes([nb]) + wire[i + 1:]
     if kind == 'trunc':
         return wire[:r % len(wire)]
+    if kind in TARGETED:
+        try:
+            ed = _targeted(wire, kind, r, b, wire[:1] == b'\x06')
+            if ed is None:
+                return wire
+            return c07._rebuild(wire, c07._tree(wire, 0, len(wire)), ed[0], ed[1])
+        except Exception:     # noqa
+            return wire
     nodes = c07._nodes(c07._tree(wire, 0, len(wire)), [])
     if not nodes:
         return wire
@@ -203,13 +330,58 @@ def _verify(case, parsed_sp_wire):
             return bool(v.verify_hmac(b'secret-key-0123', sp))
         if k.startswith('ec'):
             return bool(v.verify_ecdsa(PK.keys()[k][1], sp))
-        if k == 'rsa2048':
-            return bool(v.verify_rsa(PK.keys()[k][1], sp))
+        if k.startswith('rsa'):
+            return bool(v.verify_rsa(PK.key(k)[1], sp))
         if k == 'ed25519':
             return bool(v.verify_ed25519(PK.keys()[k][1], sp))
     except Exception as e:     # noqa
         return 'exc:' + type(e).__name__
     return None
+
+
+DEFAULT_KEY_NAME = {'hmac': '/k/hmac', 'ec256': '/k/ec256', 'ec384': '/k/ec384', 'ec521': '/k/ec521', 'rsa2048': '/k/rsa',
+                    'rsa4096': '/k/rsa', 'ed25519': '/k/ed'}
+
+
+def _drive(coro):
+    """run a coroutine that never really suspends (the shipped checkers do not await anything)"""
+    try:
+        coro.send(None)
+    except StopIteration as e:
+        return e.value
+    coro.close()
+    raise RuntimeError('checker suspended')
+
+
+def _verify_checker(case, wire):
+    """the shipped known-key validator classes (HmacChecker / EccChecker / RsaChecker / Ed25519Checker .from_key) for
+    the key the packet was signed with; True/False, None (no such checker) or 'exc:<cls>'"""
+    from ndn import encoding as enc
+    from ndn.security.validator import known_key_validator as kk
+    k = case['signer'][0]
+    if k not in DEFAULT_KEY_NAME or case.get('key_name') == []:
+        return None           # (a checker built for the empty key name accepts nothing: degenerate, not judged)
+    try:
+        if case['pkt'] == 'data':
+            name, _, _, sp = enc.parse_data(wire)
+        else:
+            name, _, _, sp = enc.parse_interest(wire)
+    except Exception:     # noqa
+        return 'unparsable'
+    try:
+        kn = case.get('key_name')
+        key_name = DEFAULT_KEY_NAME[k] if kn is None else [bytes.fromhex(c) for c in kn]
+        if k == 'hmac':
+            chk = kk.HmacChecker.from_key(key_name, b'secret-key-0123')
+        elif k.startswith('ec'):
+            chk = kk.EccChecker.from_key(key_name, PK.keys()[k][1].export_key(format='DER'))
+        elif k.startswith('rsa'):
+            chk = kk.RsaChecker.from_key(key_name, PK.key(k)[1].export_key('DER'))
+        else:
+            chk = kk.Ed25519Checker.from_key(key_name, PK.keys()[k][1].export_key(format='DER'))
+        return bool(_drive(chk(name, sp)))
+    except Exception as e:     # noqa
+        return 'exc:' + type(e).__name__
 
 
 def _digest_check(wire):
@@ -234,6 +406,7 @@ def run_impl(case):
     out['parsed'] = PK.parse_packet(case['pkt'], wire)
     out['spec'] = _hexspec(spec_portions(case['pkt'], wire))
     out['verify'] = _verify(case, wire)
+    out['verify2'] = _verify_checker(case, wire)
     if case['pkt'] == 'interest':
         out['digest_ok'] = _digest_check(wire)
     seen = set()
@@ -243,7 +416,7 @@ def run_impl(case):
             continue
         seen.add(w2)
         c = {'wire': w2.hex(), 'parsed': PK.parse_packet(case['pkt'], w2), 'spec': _hexspec(spec_portions(case['pkt'], w2)),
-             'verify': _verify(case, w2)}
+             'verify': _verify(case, w2), 'verify2': _verify_checker(case, w2)}
         if case['pkt'] == 'interest':
             c['digest_ok'] = _digest_check(w2)
         out['copies'].append(c)
@@ -339,6 +512,8 @@ def oracle(case, impl):
             return 'signature value reported by the parser differs from what the signer wrote'
         if impl['verify'] is False or (isinstance(impl['verify'], str)):
             return f"the matching verifier does not accept the packet its signer produced ({impl['verify']})"
+        if impl.get('verify2') is False or isinstance(impl.get('verify2'), str):
+            return f"the known-key checker for the signing key does not accept the packet its signer produced ({impl['verify2']})"
     if case['pkt'] == 'interest':
         r = _digest_rule(impl, spec, impl.get('digest_ok'))
         if r:
@@ -354,7 +529,7 @@ def oracle(case, impl):
             r = _digest_rule(c, cs, c.get('digest_ok'))
             if r:
                 return 'tampered copy: ' + r
-        if signed and c['verify'] is True:
+        if signed and (c['verify'] is True or c.get('verify2') is True):
             # what the verifier consumed must be what was signed ...
             if ''.join(cp['SC']) != spec[0] or cp['SV'] != spec[1]:
                 return 'verifier accepted a copy although the bytes it checked or the signature value differ from the signed packet'
